@@ -27,6 +27,8 @@ import MsVerif.Lemmas.BoundsInduct
 import MsVerif.Lemmas.BoundsSize
 import MsVerif.Lemmas.BoundsOps
 import MsVerif.Model.TypeCheck
+import MsVerif.Model.ExtApi
+import MsVerif.Model.Lift
 
 namespace MsVerif.C09
 open MsVerif ExtData
@@ -61,6 +63,69 @@ theorem witness_size_le (ke : KeyEnv) (ctx : Ctx) (mall rootHasSig : Bool) (a : 
     ∃ d, (extOf ke ctx ms).satData = some d ∧ witnessSize w ≤ d.wSize + varintLen w.length := by
   obtain ⟨d, hd, _, c2, _⟩ := witness_bounds_partial ke ctx mall rootHasSig a ha ms hg w h
   exact ⟨d, hd, by simp only [witnessSize]; omega⟩
+
+/-! ### the public accessors and declarations (`Model/ExtApi.lean`, `Model/Lift.lean`) -/
+
+/-- `max_satisfaction_size()` and `max_satisfaction_witness_elements()` are defined and bound
+every produced satisfaction: the serialized witness items in Segwitv0 / Tap, the scriptSig pushes
+in Legacy / Bare, and the element count plus one for the witness script. -/
+theorem max_satisfaction_accessors_bound (ke : KeyEnv) (ctx : Ctx) (mall rootHasSig : Bool) (a : Assets)
+    (ha : AssetsOk ke ctx a) (ms : Ms) (hg : good ke ctx ms = true) (w : List Ph)
+    (h : (satDissat ⟨ke, ctx, mall, rootHasSig, a⟩ ms).sat.stack = .stack w) :
+    ∃ m e, maxSatSize ctx (extOf ke ctx ms) = some m ∧ maxSatWitnessElements (extOf ke ctx ms) = some e
+      ∧ w.length + 1 ≤ e
+      ∧ ((ctx = .segwitv0 ∨ ctx = .tap) → (w.map Ph.size).sum ≤ m)
+      ∧ ((ctx = .legacy ∨ ctx = .bare) → (w.map phSs).sum ≤ m) := by
+  obtain ⟨d, hd, c1, c2, c3⟩ := witness_bounds_partial ke ctx mall rootHasSig a ha ms hg w h
+  have c3' : ctx ≠ .tap → (w.map phSs).sum ≤ d.ssSize := c3
+  clear c3 ha hg h
+  cases ctx
+  all_goals
+    refine ⟨_, _, by rw [maxSatSize, hd]; rfl, by rw [maxSatWitnessElements, hd]; rfl,
+      by show w.length + 1 ≤ d.wCount + 1; omega, fun hc => ?_, fun hc => ?_⟩
+    all_goals first
+      | exact c2
+      | exact c3' (by decide)
+      | (rcases hc with hc | hc <;> cases hc)
+
+/-- a script the library declares `within_resource_limits` in Segwitv0 yields at most 100
+witness items (script included), in Legacy a scriptSig of at most 1650 bytes of pushes -/
+theorem within_resource_limits_items (ke : KeyEnv) (ctx : Ctx) (mall rootHasSig : Bool) (a : Assets)
+    (ha : AssetsOk ke ctx a) (ms : Ms) (hg : good ke ctx ms = true) (w : List Ph)
+    (h : (satDissat ⟨ke, ctx, mall, rootHasSig, a⟩ ms).sat.stack = .stack w)
+    (hl : Lift.withinResourceLimits ke ctx ms = true) :
+    (ctx = .segwitv0 → w.length + 1 ≤ 100) ∧ (ctx = .legacy → (w.map phSs).sum ≤ 1650) := by
+  obtain ⟨d, hd, c1, c2, c3⟩ := witness_bounds_partial ke ctx mall rootHasSig a ha ms hg w h
+  simp only [Lift.withinResourceLimits, Bool.and_eq_true] at hl
+  have hp := hl.2
+  constructor
+  · rintro rfl
+    simp only [Lift.localPolicyOk, hd] at hp
+    simp [Lift.MAX_STANDARD_P2WSH_STACK_ITEMS] at hp
+    omega
+  · rintro rfl
+    simp only [Lift.localPolicyOk, hd] at hp
+    have := c3 (by decide)
+    simp [Lift.MAX_SCRIPTSIG_SIZE] at hp
+    omega
+
+/-- `validate` under the witness-item limit of `Segwitv0::SANE`: accepted scripts yield at most
+100 witness items (script included) -/
+theorem sane_resource_check_items (ke : KeyEnv) (mall rootHasSig : Bool) (a : Assets)
+    (ha : AssetsOk ke .segwitv0 a) (ms : Ms) (hg : good ke .segwitv0 ms = true) (w : List Ph)
+    (h : (satDissat ⟨ke, .segwitv0, mall, rootHasSig, a⟩ ms).sat.stack = .stack w)
+    (hv : resourceCheck (resourceOnly (Ctx.SANE .segwitv0)) (scriptSize ke .segwitv0 ms)
+      (extOf ke .segwitv0 ms) = .ok ()) :
+    w.length + 1 ≤ 100 := by
+  obtain ⟨d, hd, c1, _, _⟩ := witness_bounds_partial ke .segwitv0 mall rootHasSig a ha ms hg w h
+  simp only [resourceCheck, hd, chk] at hv
+  split at hv
+  · cases hv
+  · split at hv
+    · cases hv
+    · rename_i hn
+      simp [resourceOnly, Ctx.SANE, MAX_STANDARD_P2WSH_STACK_ITEMS] at hn
+      omega
 
 /-- the statement one would like (every well-typed fragment, no side conditions on it) -/
 def witness_bounds_full : Prop :=
